@@ -222,6 +222,44 @@ def stmts(work):
     return results
 
 
+def relay_and_pairs(work):
+    """C09 TraceRelay (a collection that is not restored, an event for the driver's own call) and C06 TraceEnvelopePair
+    (an end event carrying the identity of another open block)"""
+    import os
+    cin, cout = os.path.join(work, "rl.json"), os.path.join(work, "rlo.json")
+    json.dump([{"id": 1, "n": 3, "steps": 2, "end": "close"}, {"id": 2, "n": 2, "steps": 1, "end": "drop"}], open(cin, "w"))
+    core.run_driver("harness.drivers.relay_driver", [cin, cout])
+    r = core.run_tlc("TraceRelay", "TraceRelay.cfg", env={"TRACE_FILE": cout}, workers=1, timeout=300)
+    results = [("TraceRelay accepts real nested-generator histories", not r.tagged("FAIL") and not r.error)]
+    t = json.load(open(cout))
+    k = next(i for i, s_ in enumerate(t[0]["trace"]) if s_["op"] == "end")
+    t[0]["trace"][k]["cur"] = 9                             # the outer generator's collection left installed
+    k2 = next(i for i, s_ in enumerate(t[1]["trace"]) if s_["op"] == "call")
+    t[1]["trace"][k2]["inner"] += 1                         # 'gen > g > a' fires for the driver's own call of g
+    json.dump(t, open(cout, "w"))
+    r = core.run_tlc("TraceRelay", "TraceRelay.cfg", env={"TRACE_FILE": cout}, workers=1, timeout=300)
+    got = {(x[1], x[2], x[3]) for x in r.tagged("FAIL")}
+    results.append(("TraceRelay rejects a collection that is not restored and an event for the driver's own call",
+                    got == {(1, "Restored", k + 1), (2, "OneEventEach", k2 + 1)}))
+    from . import envcheck as E
+    hist = [["A", "next"], ["B", "next"], ["A", "close"], ["B", "close"]]
+    res = E.execute([{"id": 7, "hist": hist}], work, par=1)
+    pj = os.path.join(work, "pr.json")
+
+    def val(rs):
+        json.dump([{"id": c["id"], "events": c["events"], "still": c["still"], "started": c["started"]} for c in rs], open(pj, "w"))
+        return core.run_tlc("TraceEnvelopePair", "TraceEnvelopePair.cfg", env={"TRACE_FILE": pj}, workers=1, timeout=300)
+    r = val(res)
+    results.append(("TraceEnvelopePair accepts real overlapping activations", not r.tagged("FAIL") and not r.error and len(res[0]["events"]) == 4))
+    bad = copy.deepcopy(res)
+    ends = [i for i, e in enumerate(bad[0]["events"]) if e[1] == "end"]
+    bad[0]["events"][ends[0]][2], bad[0]["events"][ends[1]][2] = bad[0]["events"][ends[1]][2], bad[0]["events"][ends[0]][2]
+    r = val(bad)
+    results.append(("TraceEnvelopePair rejects end events that carry each other's identity",
+                    {(x[1], x[2], x[3]) for x in r.tagged("FAIL")} == {(7, "EndClosesAnotherBlock", ends[0] + 1)}))
+    return results
+
+
 def main():
     work = core.scratch("selftest-")
     results = []
@@ -236,6 +274,7 @@ def main():
         results += stream(work)
         results += envelope(work)
         results += stmts(work)
+        results += relay_and_pairs(work)
     finally:
         core.cleanup()
     ok = True
